@@ -88,6 +88,11 @@ func c19Build(c c19Case) *ical.Calendar {
 		comp := ical.NewComponent(s[:i])
 		if uid := s[i+1:]; uid == "\x00EMPTY" {
 			comp.Props.Set(ical.NewProp(ical.PropUID))
+		} else if strings.HasPrefix(uid, "\x00RAW:") {
+			// the value as the decoder leaves it for a line such as "UID:a,b" (a comma that is not escaped)
+			p := ical.NewProp(ical.PropUID)
+			p.Value = uid[5:]
+			comp.Props.Set(p)
 		} else if uid != "" && !utf8.ValidString(uid) {
 			// as the decoder leaves it: the raw bytes of the line (SetText would replace an ill-formed byte)
 			p := ical.NewProp(ical.PropUID)
@@ -112,10 +117,10 @@ func c19Ref(c c19Case) (accept bool, typ, uid string) {
 			types[s[:i]] = true
 			typ = s[:i]
 		}
-		if s[i+1:] != "" && s[i+1:] != "\x00EMPTY" {
-			uids[s[i+1:]] = true
+		if u := strings.TrimPrefix(s[i+1:], "\x00RAW:"); u != "" && u != "\x00EMPTY" {
+			uids[u] = true
 			if uid == "" {
-				uid = s[i+1:]
+				uid = u
 			}
 		}
 	}
@@ -306,7 +311,9 @@ func init() {
 				extra = append(extra, c)
 			}
 		}
-		odd := []string{"\xe9", "\xfc", "\xff", "\xfe", "\ufffd", "e\u0301", "\u00e9", "\U0001F382", "\xf0\x9f\x8e", "K", "\u212a"}
+		odd := []string{"\xe9", "\xfc", "\xff", "\xfe", "\ufffd", "e\u0301", "\u00e9", "\U0001F382", "\xf0\x9f\x8e", "K", "\u212a",
+			// UID lines holding a comma that is not escaped: the UID is the whole text
+			"\x00RAW:a,b", "\x00RAW:a,c", "\x00RAW:a", "\x00RAW:a,"}
 		for _, a := range odd {
 			extra = append(extra, c19Case{Comps: []string{"VEVENT/" + a}})
 			for _, b := range odd {
